@@ -33,7 +33,7 @@ fn op_name(op: &Op) -> String {
             }
             s
         }
-        Op::Return { .. } => "Return".into(),
+        Op::Return { unwinding, .. } => format!("Return{}", if *unwinding { "!unwinding" } else { "" }),
         Op::Take { detach_panics, .. } => format!("Take{}", if *detach_panics { "!detach_panics" } else { "" }),
         Op::Use { .. } => "Use".into(),
         Op::Resize { n } => format!("Resize({n})"),
@@ -42,6 +42,7 @@ fn op_name(op: &Op) -> String {
         Op::Status => "Status".into(),
         Op::DropHandle => "DropHandle".into(),
         Op::Nop => "Nop".into(),
+        Op::Sibling { kind } => format!("Sibling({})", kind % 2),
     }
 }
 
@@ -365,7 +366,7 @@ pub fn c03_grid() -> Vec<MScenario> {
                                 prefix.push(plain);
                             }
                             for _ in 0..max_size {
-                                prefix.push(Op::Return { slot: 0 });
+                                prefix.push(Op::Return { slot: 0, unwinding: false });
                             }
                         }
                         2 => {
@@ -377,11 +378,11 @@ pub fn c03_grid() -> Vec<MScenario> {
                             for _ in 0..max_size {
                                 prefix.push(plain);
                             }
-                            prefix.push(Op::Return { slot: 0 });
+                            prefix.push(Op::Return { slot: 0, unwinding: false });
                         }
                         4 => {
                             prefix.push(plain);
-                            prefix.push(Op::Return { slot: 0 });
+                            prefix.push(Op::Return { slot: 0, unwinding: false });
                             prefix.push(get(
                                 Some(OpFault {
                                     at: CallTag::Recycle,
@@ -390,7 +391,7 @@ pub fn c03_grid() -> Vec<MScenario> {
                                 None,
                                 false,
                             ));
-                            prefix.push(Op::Return { slot: 0 });
+                            prefix.push(Op::Return { slot: 0, unwinding: false });
                         }
                         _ => {
                             for _ in 0..max_size {
@@ -398,7 +399,7 @@ pub fn c03_grid() -> Vec<MScenario> {
                             }
                             prefix.push(Op::Take { slot: 0, detach_panics: false });
                             for _ in 1..max_size {
-                                prefix.push(Op::Return { slot: 0 });
+                                prefix.push(Op::Return { slot: 0, unwinding: false });
                             }
                             prefix.push(Op::Retain { pred: Pred::FirstN(1) });
                         }
@@ -425,7 +426,7 @@ pub fn c03_grid() -> Vec<MScenario> {
                             let mut ops = prefix.clone();
                             ops.push(target);
                             // follow-up traffic: the pool must keep working
-                            ops.push(Op::Return { slot: 0 });
+                            ops.push(Op::Return { slot: 0, unwinding: false });
                             ops.push(plain);
                             let sc = MScenario {
                                 profile: "C03".into(),
@@ -496,7 +497,7 @@ pub fn c10_grid() -> Vec<MScenario> {
                                 0 => {}
                                 1 => {
                                     ops.push(plain);
-                                    ops.push(Op::Return { slot: 0 });
+                                    ops.push(Op::Return { slot: 0, unwinding: false });
                                 }
                                 _ => {
                                     ops.push(plain);
